@@ -698,7 +698,7 @@ fn inlist_probe(n: &Expr) -> Option<Expr> {
 }
 /// stable key of the known defect class the ORIGINAL expression can trigger and the failing row is consistent with
 /// ("" = none).  v0 / v1 = value of the original / simplified expression on the failing row (None = error).
-fn defect_key(e: &Expr, df: &DFSchema, guar: &[(usize, Guar)], v0: &V, v1: Option<&V>, err1: &str) -> String {
+fn defect_key(e: &Expr, df: &DFSchema, guar: &[(usize, Guar)], row: &[V], v0: &V, v1: Option<&V>, err1: &str) -> String {
     let mut probes: Vec<Expr> = vec![];
     let mut inlist_pair = false;
     let mut empty_inlist = false;
@@ -745,7 +745,8 @@ fn defect_key(e: &Expr, df: &DFSchema, guar: &[(usize, Guar)], v0: &V, v1: Optio
         ks.push("negative-as-bitwise-not");
     }
     // a MaybeNull guarantee with a point interval is treated as the constant
-    if orig_null && guar.iter().any(|(_, g)| matches!(g, Guar::MaybeNull(lo, hi) if lo == hi)) {
+    // (the failing row has NULL in such a column)
+    if guar.iter().any(|(ci, g)| matches!(g, Guar::MaybeNull(lo, hi) if lo == hi) && row[*ci] == V::Null) {
         ks.push("guarantee-maybenull-point-as-constant");
     }
     // -(MIN): the array kernel wraps, a folded / guaranteed literal operand makes the scalar kernel fail
@@ -1103,7 +1104,7 @@ fn run_case(cx: &Ctx, c: &Case1, rng: &mut Rng) -> String {
     if let Some((i, why)) = bad {
         let v0 = r0[i].clone().unwrap_or(V::Null);
         let err1 = r1[i].as_ref().err().cloned().unwrap_or_default();
-        let dkey = defect_key(e, cx.df.as_ref(), &c.guar, &v0, r1[i].as_ref().ok(), &err1);
+        let dkey = defect_key(e, cx.df.as_ref(), &c.guar, &rows[i], &v0, r1[i].as_ref().ok(), &err1);
         let key = if dkey.is_empty() { format!("unclassified:{}", c.stream) } else { dkey };
         o.push_str(&format!(",\"ok\":false,\"row\":[{}],\"why\":{},\"key\":{}}}", rows[i].iter().map(|v| v.json()).collect::<Vec<_>>().join(","), json_str(&why), json_str(&key)));
     } else if type_bad {
